@@ -575,57 +575,68 @@ structure G18 where
   started : Bool := false
   /-- the patch handed to the engine for this launch -/
   running : Option Nat := none
-  lastGood : Option Nat := none
-  blind : Bool := false
+  /-- the last good patch, tracked exactly as for C03 -/
+  g3 : G03 := {}
 deriving Repr, Inhabited
 
-def G18.next (g : G18) (op : Op) (pre post : View) : G18 :=
+/-- Is this a launch start of a configured process? -/
+def startsNow (cfg : Option Config) (op : Op) : Bool :=
+  match op, cfg with
+  | .start, some _ => true
+  | _, _ => false
+
+/-- What a start handed to the engine: the selection it recorded as booting, when every record of
+    that number matches the artifact in place. -/
+def handedOut (env : Env) (key : Option String) (post : View) : Option Nat :=
+  match post.nextNum with
+  | some n => if post.bootingNum = some n ∧ post.slotsValid env key n then some n else none
+  | none => none
+
+def runningAfter (env : Env) (cfg : Option Config) (running : Option Nat) (op : Op) (pre post : View) : Option Nat :=
+  if resetsState cfg op pre || op.isStateDamage then none else
+  if startsNow cfg op then handedOut env (cfg.bind (·.key)) post
+  else match running with
+    | none => none
+    | some n =>
+      -- things that happen to patch n itself: its boot fails, the server rolls it back or re-issues
+      -- it, its artifact is damaged from outside
+      if failedBy cfg op pre = some n || (rolledBackBy cfg op).contains n || op.hitsArt n
+         || installedBy op post = some n then none else some n
+
+def G18.next (env : Env) (g : G18) (op : Op) (pre post : View) : G18 :=
   let cfg := trackCfg g.cfg op
+  let g3 := g.g3.next env op pre post
   match op with
-  | .restart => { g with cfg := cfg, started := false, running := none }
-  | _ =>
-  if resetsState g.cfg op pre then { cfg := cfg, started := (g.started || (match op with | .start => true | _ => false)), running := none, lastGood := none, blind := false } else
-  if op.isStateDamage then { g with cfg := cfg, running := none, blind := true } else
-  let failed := failedBy g.cfg op pre
-  let rb := rolledBackBy g.cfg op
-  let lastGood : Option Nat × Bool :=
-    match succeededBy g.cfg op pre with
-    | some n => (some n, false)
-    | none =>
-      match g.lastGood with
-      | none => (none, g.blind)
-      | some n =>
-        if op.hitsArt n then (none, true)
-        else if failed = some n || rb.contains n then (none, g.blind)
-        else (some n, g.blind)
-  let running : Option Nat :=
-    match op, g.cfg with
-    | .start, some _ =>
-      -- what this start handed to the engine: the selection it recorded as booting, if any
-      (match post.nextNum with
-      | some n => if post.bootingNum = some n then some n else none
-      | none => none)
-    | _, _ =>
-      match g.running with
-      | none => none
-      | some n => if failed = some n || rb.contains n || op.hitsArt n then none else some n
-  { cfg := cfg, started := g.started || (match op, g.cfg with | .start, some _ => true | _, _ => false),
-    running := running, lastGood := lastGood.1, blind := lastGood.2 }
+  | .restart => { cfg := cfg, started := false, running := none, g3 := g3 }
+  | _ => { cfg := cfg, started := g.started || startsNow g.cfg op,
+           running := runningAfter env g.cfg g.running op pre post, g3 := g3 }
+
+def runChecks (running' : Option Nat) (op : Op) (post : View) : Checks :=
+  match running' with
+  | some n =>
+    [ (post.curNum = some n, s!"C18: patch {n} is running but the recorded current patch is {optNat post.curNum} after {op.tag}"),
+      (match op with | .curN => post.ret = .num n | _ => true, s!"C18: patch {n} is running but another current patch was reported") ]
+  | none => []
+
+def idleChecks (g' : G18) (op : Op) (post : View) : Checks :=
+  match op, g'.cfg, g'.started, g'.g3.blind with
+  | .curN, some _, false, false =>
+    [(post.ret = .num ((g'.g3.good.map (·.1)).getD 0),
+      s!"C18: before launch start the current patch should be the last good patch {optNat (g'.g3.good.map (·.1))}")]
+  | _, _, _, _ => []
+
+def startChecks (cfg : Option Config) (op : Op) (post : View) : Checks :=
+  if startsNow cfg op then
+    [(match post.nextNum with | some n => post.bootingNum = some n | none => true,
+      s!"C18: launch start did not record the selected patch {optNat post.nextNum} as booting (booting={optNat post.bootingNum})")]
+  else []
 
 def mon18 : Monitor G18 where
   init := {}
-  next _ g op pre post := g.next op pre post
-  checks _ g op pre post :=
-    let g' := g.next op pre post
-    (match g'.running with
-      | some n =>
-        [ (post.curNum = some n, s!"C18: patch {n} is running but the recorded current patch is {optNat post.curNum} after {op.tag}"),
-          (match op with | .curN => post.ret = .num n | _ => true, s!"C18: patch {n} is running but another current patch was reported") ]
-      | none => []) ++
-    (match op, g'.cfg, g'.started, g'.blind with
-      | .curN, some _, false, false =>
-        [(post.ret = .num (g'.lastGood.getD 0), s!"C18: before launch start the current patch should be the last good patch {optNat g'.lastGood}")]
-      | _, _, _, _ => [])
+  next env g op pre post := g.next env op pre post
+  checks env g op pre post :=
+    runChecks (g.next env op pre post).running op post ++ idleChecks (g.next env op pre post) op post ++
+    startChecks g.cfg op post
 
 /-! #### C19: superseded, failed and rolled-back artifacts are reclaimed -/
 
